@@ -54,9 +54,16 @@ def run(ctx):
                 cls = "request-failed" if not ev.get("ok") else "stale-or-backward-read"
             else:
                 cls = "lost-reply"
+            extra_case = {}
+            if cls == "data-race":
+                extra_case["race_report"] = (res.get("extra") or {}).get("race_report_history_%d" % i, "")
+                m2 = re.findall(r"simpleiot/([\w/.-]+\.go:\d+)", extra_case["race_report"])
+                if m2:
+                    cls = "data-race"
+                    extra_case["locations"] = sorted(set(m2))[:8]
             failures.append({"finding": cls,
                              "what": "recorded history is not accepted by Trace_Concurrent.tla at event %d: %s" % (at, json.dumps(ev)[:600]),
-                             "case": {"history": i, "events_before": [json.loads(x) for x in chunk[max(0, at - 10):at]]}})
+                             "case": {"history": i, "events_before": [json.loads(x) for x in chunk[max(0, at - 10):at]], **extra_case}})
     cov = {
         "states": states, "transitions": trans, "role1": detail,
         "traces_validated_against_impl": len(starts) - 1,
